@@ -30,6 +30,9 @@ def items(tier):
                                            "sysofeq-n3-2rhs", "assemble-stiffness-1x1x1"):
             continue        # heavy items: thorough tier only
         out.append(dict(g, kind="linear:" + g["mod"]))
+        if g.get("scaling") == "frozen":
+            # scalar seeds handed over as 0-d arrays (what an upstream NumPy module produces): mutable seeds
+            out.append(dict(g, kind="linear:" + g["mod"], id=g["id"] + "-seed0d", seed0d=True))
     return out
 
 
@@ -40,7 +43,7 @@ def _snap(x):
     return np.array(e, dtype=object, copy=True) if np.asarray(e).dtype == object else np.array(e, copy=True)
 
 
-def _seed_all(V, setup, outs, tag, combine=None):
+def _seed_all(V, setup, outs, tag, combine=None, seed0d=False):
     seeds = []
     for j, s in enumerate(outs):
         kind = setup.seed_kinds.get(j, "dense")
@@ -48,6 +51,8 @@ def _seed_all(V, setup, outs, tag, combine=None):
             seed, Wd = C01._preimage_seed(V, setup, s.state) if tag == "w" else _preimage_seed2(V, setup, s.state, tag)
         else:
             seed, Wd = adj.make_seed(V, j, s.state, kind, setup, tag=tag)
+        if seed0d and np.ndim(seed) == 0 and not isinstance(seed, np.ndarray):
+            seed = np.array(seed, dtype=object) if V.symbolic else np.array(seed)
         seeds.append(seed)
     return seeds
 
@@ -76,12 +81,32 @@ def scenario(V, P, cfg):
     setup = BUILDERS[cfg["mod"]](V, cfg)
     m = setup.module
     ins = setup.inputs
+    state0 = [_snap(s.state) for s in ins]
     m.response()
     outs = m.sig_out
+    # (0) the very first response() already leaves the input states alone (checked before anything expensive runs on
+    #     possibly destroyed inputs)
+    state1 = [_snap(s.state) for s in ins]
+    if V.symbolic:
+        def _ident(x, y):
+            if x is None or y is None:
+                return (x is None) == (y is None)
+            xa, ya = np.asarray(x, dtype=object), np.asarray(y, dtype=object)
+            return xa.shape == ya.shape and all(a_ is b_ or (not isinstance(a_, (R, C)) and not isinstance(b_, (R, C)) and a_ == b_)
+                                                for a_, b_ in zip(xa.flat, ya.flat))
+        if not all(_ident(x, y) for x, y in zip(state0, state1)):
+            for k, (x, y) in enumerate(zip(state0, state1)):
+                _same(P, "input-state-after-first-response[%d]" % k, x, y, "input-unchanged-by-response")
+            return {}
+    first_change = 0.0
+    if not V.symbolic:
+        for x, y in zip(state0, state1):
+            if x is not None and y is not None and np.shape(x) == np.shape(y) and np.size(x):
+                first_change = max(first_change, float(np.max(np.abs(np.asarray(x, dtype=complex) - np.asarray(y, dtype=complex)))))
     allsig = list(ins) + list(outs)
     a, b = V.real("ca", default=1.5), V.real("cb", default=-0.75)
-    S1 = _seed_all(V, setup, outs, "w")
-    S2 = _seed_all(V, setup, outs, "v")
+    S1 = _seed_all(V, setup, outs, "w", seed0d=cfg.get("seed0d", False))
+    S2 = _seed_all(V, setup, outs, "v", seed0d=cfg.get("seed0d", False))
     if V.symbolic and any(k == "preimage_T" for k in setup.seed_kinds.values()):
         # pre-image of the combined adjoint right-hand side
         from symx import oracles
@@ -119,6 +144,8 @@ def scenario(V, P, cfg):
     m.reset()
     for i in range(len(ins)):
         obs["g1_%d" % i], obs["g2_%d" % i], obs["g12_%d" % i], obs["gtw_%d" % i] = g1[i], g2[i], g12[i], gtw[i]
+    if not V.symbolic:
+        obs["_first_response_input_change"] = first_change
     if P is not None:
         for i in range(len(ins)):
             if g1[i] is None and g2[i] is None and g12[i] is None and gtw[i] is None:
@@ -162,6 +189,9 @@ def replay(cfg, label, env, case):
             return dict(reproduced=type(e).__name__ == label.split(":", 1)[1], detail="%s: %s" % (type(e).__name__, str(e)[:200]))
         return dict(reproduced=False, detail="no exception on the real library")
     obs = scenario(Vals(env=env), None, cfg)
+    if label.startswith("input-state-after-first-response"):
+        ch = obs.get("_first_response_input_change", 0.0)
+        return dict(reproduced=bool(ch > 0), detail=dict(max_abs_change_of_an_input_state_by_response=ch))
     a, b = env.get("ca", 1.5), env.get("cb", -0.75)
     bad, det = False, {}
     n = len([k for k in obs if k.startswith("g1_")])
